@@ -29,6 +29,10 @@ CHECKS["C15"] = dict(level="exploration",
    text="(a) Model-based search: an independent invariant checker reads the metadata JSON and all manifests after every step of generated histories (incl. multi-op transactions, retention, metadata-log bound, failed commits) under real-like, coarse and backwards clocks: current retained, parents are retained true ancestors, sequence numbers strictly increase in commit order and never exceed a non-decreasing last_sequence_number, snapshot_log only retained snapshots in commit order, carried entries keep their original adding snapshot and sequence number, deletes remove exactly the named files, expiry/snapshot deletion remove exactly the right snapshots, the metadata log names existing, actually superseded versions, contiguous, in order, within the bound. (b) exhaustive enumeration of all parent functions on <=5 nodes x all kept subsets for the repointing routine (1.09 M evaluations).",
    note="True ancestry comes from the model (the snapshot that was current at commit). (b) calls datashard.snapshot_manager.repoint_parents_to_surviving_ancestors directly and is skipped with a note if that symbol disappears.",
    technique="stateful property-based testing (Hypothesis histories) with an independent metadata invariant checker + exhaustive small-domain enumeration", design="3/C15")
+CHECKS["C20"] = dict(level="exploration",
+   text="Differential search: (a) generated storage-operation sequences over a key space with sibling-prefix and nested names run side by side on LocalStorageBackend and on S3StorageBackend over a strongly consistent in-memory S3 (results, not-found errors, listings confined to the named directory must be identical); (b) generated seek/read programs on the raw S3RangeFile vs io.FileIO and on open_seekable vs a local file over objects around the 1 MiB buffer boundary (bytes, return values, positions, errors identical; every Range in bounds; the raw reader never requests more than asked); (c) generated per-request fault plans for every backend operation (k<=budget transient faults are masked with attempts=faults+1 and unchanged results; a permanent error surfaces on attempt 1 as the original exception; beyond the budget the last error is raised; exists never turns an error into False; conditional PUTs are not retried).",
+   note="The S3 side is a fake (MD5 ETags, conditional PUT, paginated listings of 2 keys/page). Directory-ness of exists() is outside the contract and not compared. whence is restricted to 0/1/2.",
+   technique="property-based differential testing (Hypothesis) of two implementations + fault-plan injection at request granularity", design="3/C20")
 NOT_YET = {}
 
 def main():
